@@ -274,4 +274,48 @@ theorem input_conservation (cs : CharSpec) (hs : AlnumSpec cs) (ext : Ext) (inpu
         omega
       rw [e] at this; exact this
 
+/-- the toy character table of the examples satisfies `AlnumSpec` -/
+theorem toyCharSpec_alnumSpec : AlnumSpec toyCharSpec := by
+  have key : ∀ c : Char, c.isAlphanum = true → ∀ d : Char, d.isAlphanum = false → c ≠ d := by
+    intro c h d hd e; subst e; rw [h] at hd; cases hd
+  constructor
+  · intro c h
+    have h' : c.isAlphanum = true := h
+    have k1 := key c h' ' ' (by decide)
+    have k2 := key c h' '\t' (by decide)
+    have k3 := key c h' '\r' (by decide)
+    have k4 := key c h' '\n' (by decide)
+    refine ⟨?_, ?_⟩
+    · show c.isWhitespace = false
+      simp [Char.isWhitespace, k1, k2, k3, k4]
+    · show decide (c = ' ' ∨ c = '\t') = false
+      simp [k1, k2]
+  · intro c h
+    have h' : c.isAlphanum = true := h
+    exact ⟨key c h' '>' (by decide), key c h' '=' (by decide), key c h' '\\' (by decide),
+      key c h' '\n' (by decide), key c h' '\r' (by decide), key c h' '-' (by decide)⟩
+
+/-- the three component parsers: the returned event spans exactly the consumed bytes, so every
+    consumed token lies inside it -/
+theorem component_span_exact {ts : List Tok} (hw : WF ts) {e : Ext} {s : BP α} (hg : G ts e s)
+    (p : P α (Option (Ev α))) (hp : p = ingredientP ∨ p = cookwareP ∨ p = timerP) (ev : Ev α)
+    (hr : (p s).1 = some ev) :
+    ev.srcSpan = some ⟨offAt ts s.cur, offAt ts (p s).2.cur⟩ ∧
+    ∀ (i : Nat) (t : Tok), s.cur ≤ i → i < (p s).2.cur → ts[i]? = some t →
+      offAt ts s.cur ≤ t.start ∧ t.stop ≤ offAt ts (p s).2.cur := by
+  have hwi := wf_wfi hw
+  have hc : Ctx 0 _ (fun _ : Array (Ev α) => True) ts := ⟨hwi, fun _ _ _ _ => ⟨trivial, trivial⟩⟩
+  have hge : GE (fun _ : Array (Ev α) => True) ts e s := ⟨hg, trivial⟩
+  have hat : EvAt ts s.cur (p s).2.cur (p s).1 := by
+    rcases hp with rfl | rfl | rfl
+    · exact (ingredientP_evx hc hge).2.2.2
+    · exact (cookwareP_evx hc hge).2.2.2
+    · exact (timerP_evx hc Boundary.first hge).2.2.2
+  refine ⟨hat ev hr, ?_⟩
+  intro i t h1 h2 ht
+  have := hwi.tokAt ht
+  have := hwi.offAt_mono h1
+  have := hwi.offAt_mono (show i + 1 ≤ (p s).2.cur by omega)
+  omega
+
 end Cook
